@@ -12,27 +12,27 @@ P = {
          "3/C15"),
  "C01": ("hist", "exploration",
          "round-trip oracle over seeded random histories in a testing/synctest virtual-time bubble (monitored metastore/KMS/AEAD/secret factory)",
-         "Seeded random histories interleave encrypt/store, decrypt/load through the same, another and a brand-new factory, session and factory churn with random cache policies (all five key-cache policies, capacities 1..1000, shared IK cache, session cache, no cache, both secure-memory implementations), clock advances across precision/revoke/lifetime boundaries and out-of-band revocations; every decrypt is compared with the recorded payload, caller buffers are compared before/after, and a final sweep decrypts every record through a fresh factory; metastore reads, KMS calls and secure-memory allocations fail transiently and external calls take virtual time; half of the histories run end to end over a real metastore plug-in (DynamoDB v1/v2 on the semantic fake, SQL on the mini SQL engine). Real-goroutine rounds let 6 cold factories encrypt for one new partition at once over each back end with their key inserts held at a barrier, and a cold factory must decrypt every record, as must a late process whose sessions hit its cold system-key cache together. A migration scenario reads legacy (unsuffixed) records after the region suffix is switched on, in two regions. Held on the histories executed (counts in the evidence).",
+         "Seeded random histories interleave encrypt/store, decrypt/load through the same, another and a brand-new factory, session and factory churn with random cache policies (all five key-cache policies, capacities 1..1000, shared IK cache, session cache, no cache, both secure-memory implementations), clock advances across precision/revoke/lifetime boundaries and out-of-band revocations; every decrypt is compared with the recorded payload, caller buffers are compared before/after, and a final sweep decrypts every record through a fresh factory; metastore reads, KMS calls and secure-memory allocations fail transiently and external calls take virtual time; half of the histories run end to end over a real metastore plug-in (DynamoDB v1/v2 on the semantic fake, SQL on the mini SQL engine). Real-goroutine rounds let 6 cold factories encrypt for one new partition at once over each back end with their key inserts held at a barrier, and a cold factory must decrypt every record, as must a late process whose sessions hit its cold system-key cache together. A migration scenario reads legacy (unsuffixed) records after the region suffix is switched on, in two regions; a regional-KMS scenario writes through both AWS KMS plug-ins and reads from new processes in either region while either region is unreachable. Held on the histories executed (counts in the evidence).",
          "Trusted: testing/synctest virtual clock, in-memory metastore / DynamoDB fake and StaticKMS as stand-ins for real back ends, Go's AES-GCM.",
          "3/C01"),
  "C03": ("hist", "exploration",
          "online trace checker over AEAD/KMS/metastore/secret-factory/log monitor events (key-role provenance typing, duplicate-free nonce and (key,nonce) sets, artefact byte scanning)",
-         "Every AEAD.Encrypt the SDK issues during seeded histories (debug logging on) is typed against the hierarchy payload<fresh DRK<partition IK<service SK<KMS using roles derived from provenance; nonce and (key,nonce) sets must stay duplicate-free; each data key must be a CreateRandom secret of the same call used exactly once; every record, stored row, KMS output and log line is scanned for known plaintext keys/payloads in raw, base64 (std/url), hex, decimal-list and Go-syntax renderings. Transient read/KMS/allocator faults run inside the histories, and a scripted matrix fails the k-th allocation or KMS call of the first operation of a process that loads persisted keys and then checks the records it goes on to write. The test binary is re-executed as several consecutive process lives over the same persisted keys: the (key, nonce) pairs of all lives must be pairwise distinct. The gRPC sidecar's standard log is captured while requests fail on injected faults and scanned too.",
+         "Every AEAD.Encrypt the SDK issues during seeded histories (debug logging on) is typed against the hierarchy payload<fresh DRK<partition IK<service SK<KMS using roles derived from provenance; nonce and (key,nonce) sets must stay duplicate-free; each data key must be a CreateRandom secret of the same call used exactly once; every record, stored row, KMS output and log line is scanned for known plaintext keys/payloads in raw, base64 (std/url), hex, decimal-list and Go-syntax renderings. Transient read/KMS/allocator faults run inside the histories, and a scripted matrix fails the k-th allocation or KMS call of the first operation of a process that loads persisted keys and then checks the records it goes on to write. The test binary is re-executed as several consecutive process lives over the same persisted keys: the (key, nonce) pairs of all lives must be pairwise distinct. Partition ids include case twins and every record must name its own partition's key id. The gRPC sidecar's standard log is captured while requests fail on injected faults and scanned too.",
          "Trusted: monitors see everything because the SDK reaches AEAD/KMS/metastore/secret factory only through these interfaces; a 96-bit nonce repeat is treated as a violation.",
          "3/C03"),
  "C04": ("hist", "exploration",
          "per-record oracle in virtual time (testing/synctest) over seeded histories plus a deterministic boundary matrix",
-         "For every record produced in seeded histories and in a deterministic matrix (6 cache configurations x 5 SK/IK age offsets x warm/cold sessions, encrypts placed +-1ns/+-1s around every IK/SK expiry boundary and SK expiry + one interval) the oracle recomputes from the record, raw rows, the insert log and the virtual clock: IK age <= lifetime; no IK row inserted under an expired SK; no record under an IK whose SK expired more than one revoke-check interval ago. Matrix variants place a transient read or KMS fault on every encrypt after the SK expired (the operation may fail but must not fall back to the stale key), and a gated schedule holds one process in front of its system-key insert while another completes a rotation (the loser must adopt the new key); the matrix is repeated with a zero revoke-check interval.",
+         "For every record produced in seeded histories and in a deterministic matrix (6 cache configurations x 5 SK/IK age offsets x warm/cold sessions, encrypts placed +-1ns/+-1s around every IK/SK expiry boundary and SK expiry + one interval) the oracle recomputes from the record, raw rows, the insert log and the virtual clock: IK age <= lifetime; no IK row inserted under an expired SK; no record under an IK whose SK expired more than one revoke-check interval ago. Matrix variants place a transient read or KMS fault on every encrypt after the SK expired (the operation may fail but must not fall back to the stale key), and a gated schedule holds one process in front of its system-key insert while another completes a rotation (the loser must adopt the new key, and a cold process must read every record afterwards); the matrix is repeated with a zero revoke-check interval.",
          "Trusted: testing/synctest clock; policies satisfy ExpireKeyAfter >= 2*CreateDatePrecision; metastore accepts writes.",
          "3/C04"),
  "C05": ("hist", "exploration",
          "per-record oracle in virtual time over seeded histories with out-of-band revocations plus a deterministic matrix; known-finding filter by signature",
-         "Rows are flagged revoked directly in the raw store under live, long-lived sessions; for every later record the oracle decides from the record, raw rows, flip log and virtual clock whether a key revoked more than 1 (IK) / 2 (parent SK) revoke-check intervals ago is still named although a later stamp was creatable; records under revoked keys must still decrypt. Matrix: 6 configurations x {latest/older IK/SK} x 5 flip offsets x other-process-rotated, then an encrypt every R/4 for 4R; repeated with a zero revoke-check interval and, end to end, over the DynamoDB and SQL plug-ins on their fakes (the revocation is an out-of-band update of the item / row).",
+         "Rows are flagged revoked directly in the raw store under live, long-lived sessions; for every later record the oracle decides from the record, raw rows, flip log and virtual clock whether a key revoked more than 1 (IK) / 2 (parent SK) revoke-check intervals ago is still named although a later stamp was creatable; records under revoked keys must still decrypt. Matrix: 6 configurations x {latest/older IK/SK} x 5 flip offsets x other-process-rotated, then an encrypt every R/4 for 4R; repeated with a zero revoke-check interval, with a KMS that cannot wrap replacement system keys (encrypts may fail but no intermediate key may be created under a system key flagged longer ago than the bound) and, end to end, over the DynamoDB and SQL plug-ins on their fakes (the revocation is an out-of-band update of the item / row).",
          "Trusted: testing/synctest clock. Known finding F11 (decrypt-path seeding of the 'latest' alias) is listed in known_findings.json and reproduced deterministically on every run.",
          "3/C05"),
  "C02": ("faults", "fault_enumeration",
          "fault enumeration (every call index x every fault kind, then every second fault) over monitored metastore/KMS/AEAD with a raw-store audit and a crash-model decrypt",
-         "For 10 key states x 3 cache configurations a clean run records the external-call trace of the encrypt under test; every call index then gets every fault kind valid for it (error, false-without-write, write-then-error, write-then-false, one-precision-unit latency) and, depth-first, every second fault at each later call of the faulted run (sampled in quick, complete in thorough). After each execution the raw store is audited for the IK and SK rows named by the returned record, a brand-new cache-less factory (crash) must decrypt it, a failed op must return (nil, err), and after faults stop the next encrypt and earlier records must work on the same session. Encrypt and decrypt operations are enumerated. The enumeration is repeated (single faults, sampled pairs) with region-suffixed key ids and over the DynamoDB and SQL plug-ins on their fakes; with both AWS KMS plug-ins over a fake two-region cloud as the KMS (the crash-model process prefers the other region and finds the first one unreachable); real-goroutine rounds let six cold processes insert the same new keys at once over every back end.",
+         "For 10 key states x 3 cache configurations a clean run records the external-call trace of the encrypt under test; every call index then gets every fault kind valid for it (error, false-without-write, write-then-error, write-then-false, one-precision-unit latency) and, depth-first, every second fault at each later call of the faulted run (sampled in quick, complete in thorough). After each execution the raw store is audited for the IK and SK rows named by the returned record, a brand-new cache-less factory (crash) must decrypt it, a failed op must return (nil, err), and after faults stop the next encrypt and earlier records must work on the same session. Encrypt and decrypt operations are enumerated. The enumeration is repeated (single faults, sampled pairs) with region-suffixed key ids and over the DynamoDB and SQL plug-ins on their fakes; with both AWS KMS plug-ins over a fake two-region cloud as the KMS (the crash-model process prefers the other region and finds the first one unreachable); real-goroutine rounds let six cold processes insert the same new keys at once over every back end (DynamoDB plug-ins also with their own region-suffix option), in some rounds with the first insert lost (service error / time-out) until a rival has inserted.",
          "Trusted: testing/synctest clock; faults fail without partial effect except the explicit write-then-error kinds; partial writes inside a real database are out of reach.",
          "3/C02"),
  "C09": ("faults", "fault_enumeration",
@@ -47,12 +47,12 @@ P = {
          "3/C10"),
  "C13": ("mstore", "exploration",
          "reference-table monitor (bounded-exhaustive + random sequences) per backend over a mini SQL engine / semantic DynamoDB fake; porcupine linearizability check of concurrent histories; race detector",
-         "Memory, SQL (MySQL/Postgres/Oracle placeholder dialects) and both DynamoDB metastores are driven with every Store/Load/LoadLatest sequence up to the tier's length over 2 ids x 3 stamps, seeded random sequences with binary keys/flags/parent meta, all compared call-by-call with a reference insert-only table; concurrent 8-client histories are checked per id with porcupine and racing duplicate inserts must have exactly one winner; the DynamoDB fake serves non-ConsistentRead reads one write behind so a dropped consistency flag is observable.",
+         "Memory, SQL (MySQL/Postgres/Oracle placeholder dialects) and both DynamoDB metastores are driven with every Store/Load/LoadLatest sequence up to the tier's length over 2 ids x 3 stamps, seeded random sequences with binary keys/flags/parent meta, all compared call-by-call with a reference insert-only table; concurrent 8-client histories are checked per id with porcupine and racing duplicate inserts must have exactly one winner; the DynamoDB fake serves non-ConsistentRead reads one write behind so a dropped consistency flag is observable. Back-end faults: failed reads (also a row fetch that fails after the statement was accepted) must be errors, never 'absent'; a write that fails or times out (never applied / applied with the response lost) while a rival inserts the same key may report success only if the table holds the caller's record.",
          "Trusted: the mini SQL engine and the DynamoDB fake (written from documented semantics). Real databases are out of reach offline.",
          "3/C13"),
  "C14": ("faults", "exploration",
          "controlled scheduler: every interleaving of metastore calls of 2-3 processes enumerated depth-first with replay (gates in the metastore monitor, synctest.Wait as quiescence)",
-         "Each process is a goroutine with its own factory over one gated metastore in one virtual-time bubble; the controller releases exactly one parked metastore call per step and enumerates all schedules depth-first (quick truncates per cell; thorough completes the 2-process cells) from cold / expired / revoked / stale-cache starting states. After each schedule: no encrypt failed, every record's IK and SK rows exist, every process and a fresh factory decrypt every record, no stored row changed, and every generated key whose insert was refused (identified through the AEAD/KMS monitors) has been released. The racing-creator cells are repeated end to end over the DynamoDB and SQL plug-ins; real-goroutine rounds over every back end let six cold processes' key inserts overlap inside the metastore implementation itself.",
+         "Each process is a goroutine with its own factory over one gated metastore in one virtual-time bubble; the controller releases exactly one parked metastore call per step and enumerates all schedules depth-first (quick truncates per cell; thorough completes the 2-process cells) from cold / expired / revoked (outside and inside the keys' creation window) / stale-cache starting states. After each schedule: no encrypt failed, every record's IK and SK rows exist, every process and a fresh factory decrypt every record, no stored row changed, and every generated key whose insert was refused (identified through the AEAD/KMS monitors) has been released. The racing-creator cells are repeated end to end over the DynamoDB and SQL plug-ins; real-goroutine rounds over every back end let six cold processes' key inserts overlap inside the metastore implementation itself.",
          "Processes = separate factories sharing store+KMS; sessions of one factory share mutexes and are covered by C08's stress part instead.",
          "3/C14"),
  "C17": ("awskms", "fault_enumeration",
@@ -62,7 +62,7 @@ P = {
          "3/C17"),
  "C20": ("hist", "exploration",
          "exact call-count oracle from metastore/KMS monitors in virtual time, attributed to the key-cache scope, plus barrier schedules at the lock-free hook point of GetOrLoad and at auto-generated after-unlock hooks (build overlay) inside the latest-key lookup",
-         "A producer creates keys and records; a cold factory under test with 1-3 sessions for 1-20 partitions runs seeded mixes of encrypts/decrypts with clock advances strictly before, just after and long after loadedAt+interval for per-session, shared, session-cached and uncached configurations. Repeats of an op that already succeeded must make 0 external calls inside the interval, exactly 1 read of the key's record on first use after it, never a Store; one KMS unwrap per SK per factory per interval; without caching (for both or for one key type, whatever the shared-cache option says) every call loads and retains no secret. An in-place rotation (keys expire while cached as latest) followed by further partitions must stay within one unwrap per system key. N sessions reaching a stale key at the same instant (decrypt and encrypt path, same/new partitions, shared IK cache) must cause one reload.",
+         "A producer creates keys and records; a cold factory under test with 1-3 sessions for 1-20 partitions runs seeded mixes of encrypts/decrypts with clock advances strictly before, just after and long after loadedAt+interval for per-session, shared, session-cached and uncached configurations. Repeats of an op that already succeeded must make 0 external calls inside the interval, exactly 1 read of the key's record on first use after it, never a Store; one KMS unwrap per SK per factory per interval; without caching (for both or for one key type, whatever the shared-cache option says) every call loads and retains no secret. The interval set includes zero (every use at a later instant re-reads exactly once). An in-place rotation (keys expire while cached as latest) followed by further partitions must stay within one unwrap per system key; a session that was idle for longer than the interval while its keys expired re-reads each key's record exactly once and unwraps nothing. N sessions reaching a stale key at the same instant (decrypt and encrypt path, same/new partitions, shared IK cache) must cause one reload.",
          "Keys never expire and nothing is revoked in these scenarios so that every call is attributable to caching.",
          "3/C20"),
  "C06": ("inputs", "exploration",
@@ -77,17 +77,17 @@ P = {
          "3/C07"),
  "C08": ("conc", "exploration",
          "controlled scheduler over verif hook points (all interleavings, DFS with replay, synctest.Wait quiescence) plus seeded stress with yields at the same hooks under the Go race detector; use-after-destroy ledger",
-         "2-3 goroutines with short programs park at the lock-free hook points around the key-cache lookup and while holding a tracked key; the controller releases one per step and enumerates all schedules for shared IK caches of capacity 1-2 under lru/lfu/slru/tinylfu, an SK cache of capacity 1 with two SK generations, rotation while an old record is decrypted, another session closing, refresh on every access, a hot (promoted/demoted) key in use while the cache churns. Auto-generated hooks after every unlock (also deferred ones) / before every lock of the lock-using SDK files (build overlay regenerated from the working tree) are additional park/yield points. A last pass runs the load against a factory built from the SDK's own parts with every harness monitor removed, so that the race detector sees the SDK's synchronisation only. Stress: 16-32 real goroutines over 8-150 partitions on capacity-1/2 and capacity-100 (asynchronous eviction) caches and cached sessions, yields injected at the hooks, race reports parsed. Oracle: every op not racing with its own session's close succeeds with the right bytes; the ledger sees no access to a destroyed secret.",
+         "2-3 goroutines with short programs park at the lock-free hook points around the key-cache lookup and while holding a tracked key; the controller releases one per step and enumerates all schedules for shared IK caches of capacity 1-2 under lru/lfu/slru/tinylfu, an SK cache of capacity 1 with two SK generations, rotation while an old record is decrypted, another session closing, refresh on every access, a hot (promoted/demoted, or just refreshed in place) key in use while the cache churns. Auto-generated hooks after every unlock (also deferred ones) / before every lock of the lock-using SDK files (build overlay regenerated from the working tree) are additional park/yield points. A last pass runs the load against a factory built from the SDK's own parts with every harness monitor removed, so that the race detector sees the SDK's synchronisation only. Stress: 16-32 real goroutines over 8-150 partitions on capacity-1/2 and capacity-100 (asynchronous eviction) caches and cached sessions, yields injected at the hooks, race reports parsed. Oracle: every op not racing with its own session's close succeeds with the right bytes; the ledger sees no access to a destroyed secret.",
          "Gates are only placed where the parked goroutine holds no lock another goroutine of the scenario needs. A clean race-detector run is not race freedom.",
          "3/C08"),
  "C11": ("secmem", "exploration",
          "kernel-state oracle (/proc/self/smaps) at hooked points of real secrets, bounded-exhaustive operation sequences, concurrent reader/closer rounds in synctest bubbles under the race detector, faults turned into attributed panics",
-         "For memguard and protectedmemory secrets on real mlock'd pages: every sequence of L operations over {WithBytes, WithBytesFunc, nested reader, io.Reader, Close, IsClosed} for 9 sizes from 1 byte to 3 pages + 1 is compared with a model (bytes, errors, IsClosed) and the page's permissions / lock flag are sampled from smaps inside readers (r--, locked), between operations (---, locked, not dumpable) and after Close (unmapped or unlocked); reader callbacks that panic (recovered by the caller) must leave the pages ---, later readers working and Close neither blocking nor failing; 1-8 readers x 1-3 closers race in bubbles: readers see the original bytes or the closed error, no callback runs when a Close returns, a Close that never returns is a detected deadlock, nothing faults.",
+         "For memguard and protectedmemory secrets on real mlock'd pages: every sequence of L operations over {WithBytes, WithBytesFunc, nested reader, io.Reader, Close, IsClosed} for 9 sizes from 1 byte to 3 pages + 1 is compared with a model (bytes, errors, IsClosed) and the page's permissions / lock flag are sampled from smaps inside readers (r--, locked), between operations (---, locked, not dumpable) and after Close (unmapped or unlocked); reader callbacks that panic (recovered by the caller) must leave the pages ---, later readers working and Close neither blocking nor failing; 1-8 readers x 1-3 closers race in bubbles: readers see the original bytes or the closed error, no callback runs when a Close returns, a Close that never returns is a detected deadlock, nothing faults; accesses that arrive while a Close is waiting for a reader in flight are refused and do not postpone it.",
          "smaps is sampled on a subset of sequences (cost). strace-based lifecycle checking is not part of the registered check.",
          "3/C11"),
  "C12": ("secmem", "fault_enumeration",
          "memcall monitor over the real awnumar/memcall (region table, content inspection at unlock) with every call index failing, through verif-tagged constructors; GC/finalizer drain; synctest deadlock detection",
-         "Both implementations are built on a monitored memcall: every call index of {New/CreateRandom, plain/nested/func/io.Reader reads, Close, second Close} fails without effect (pairs in thorough) plus a failing random source. Oracle: error returned, no region left mapped without a faulted release attempt, no non-zero content at unlock, failed access leaves the secret usable, failed Close retriable (and a read in between is refused or sees the secret, never other bytes), InUseCounter balanced, and after a failed creation a healthy secret created next survives GC cycles (finalizer of the failed one).",
+         "Both implementations are built on a monitored memcall: every call index of {New/CreateRandom, plain/nested/func/io.Reader reads incl. a chunked read-all, Close, second Close} fails without effect (pairs in thorough) plus a failing random source. Oracle: error returned (also by the read that reaches EOF), no region left mapped without a faulted release attempt, no non-zero content at unlock, failed access leaves the secret usable, failed Close retriable (and a read in between is refused or sees the secret, never other bytes), InUseCounter balanced, and after a failed creation a healthy secret created next survives GC cycles (finalizer of the failed one).",
          "memguard allocates/locks inside the third-party library (panics by design): only Protect and cleanup positions are injectable there. Known finding F9m (memguard munlocks an unwiped buffer when the first Protect fails) is listed.",
          "3/C12"),
  "C16": ("conc", "exploration",
@@ -97,12 +97,12 @@ P = {
          "3/C16"),
  "C18": ("format", "exploration",
          "differential check against an independent reference codec written from the documentation, both directions, through every persistence format and the gRPC mapping; known-answer vectors",
-         "A reference implementation using only encoding/json on generic maps, base64 and crypto/aes+cipher parses strictly and decrypts what the SDK writes, and the SDK decrypts what the reference writes, through JSON DRRs, memory, SQL key_record rows (3 dialects), DynamoDB v1/v2 items (with/without region suffix), mixed hierarchies (reference SK, SDK IK), StaticKMS envelopes and protobuf messages; field names/presence, base64, ciphertext|tag|nonce and key-id shapes are asserted; key blobs of every base64 padding class go through every store in both directions, the application's payload buffer is reused before the record is serialised, region suffixes of default-client constructions are checked; McGrew-Viega AES-256-GCM vectors must open through the SDK's AEAD.",
+         "A reference implementation using only encoding/json on generic maps, base64 and crypto/aes+cipher parses strictly and decrypts what the SDK writes, and the SDK decrypts what the reference writes, through JSON DRRs, memory, SQL key_record rows (3 dialects), DynamoDB v1/v2 items (with/without region suffix), mixed hierarchies (reference SK, SDK IK), StaticKMS envelopes and protobuf messages; field names/presence, base64, ciphertext|tag|nonce and key-id shapes are asserted; key blobs of every base64 padding class go through every store in both directions, the application's payload buffer is reused before the record is serialised, region suffixes of default-client constructions are checked; with the suffix configured the SDK reads reference-written records of another region and of the time before the suffix; intermediate-key stamps fall on either side of the system key's; McGrew-Viega AES-256-GCM vectors must open through the SDK's AEAD.",
          "The reference stands in for the Java/C# peers; Go's AES-GCM is anchored by the known answers.",
          "3/C18"),
  "C19": ("grpcsrv", "exploration",
          "reference protocol automaton over bounded-exhaustive request sequences on an in-process stream plus concurrent streams over real gRPC (bufconn) under the race detector",
-         "Every request sequence up to length L over {get-session valid/empty, encrypt, decrypt genuine/foreign/corrupt/empty(4 shapes), empty request} + end-of-stream runs through AppEncryption.Session; an automaton {uninitialised, initialised, rejected} gives the expected response class, responses are counted per request, panics recovered. 8 concurrent streams x seeded 40-request sequences per round over bufconn check the same automaton per stream (a handler panic there kills the process and is reported as a crash), for the server built with and without the shared session cache (three partitions, cache of 2), and cold-start rounds of 8 lock-step streams run against a fresh server whose metastore alternates between healthy and failing (all reads / only SK reads / only IK reads) with ever-changing error texts; a broken-peer scenario fails the k-th Send of one stream while a sibling stream of the same partition stays open and the partition is then evicted.",
+         "Every request sequence up to length L over {get-session valid/empty, encrypt, decrypt genuine/foreign/corrupt/empty(4 shapes), empty request} + end-of-stream runs through AppEncryption.Session; an automaton {uninitialised, initialised, rejected} gives the expected response class, responses are counted per request, panics recovered. 8 concurrent streams x seeded 40-request sequences per round over bufconn check the same automaton per stream (a handler panic there kills the process and is reported as a crash), for the server built with and without the shared session cache (three partitions, cache of 2) and with neither --expire-after nor --check-interval, and cold-start rounds of 8 lock-step streams run against a fresh server whose metastore alternates between healthy and failing (all reads / only SK reads / only IK reads) with ever-changing error texts; a broken-peer scenario fails the k-th Send of one stream while a sibling stream of the same partition stays open and the partition is then evicted; an aged-sidecar scenario runs the stream handler in virtual time past --expire-after (rotation on a long-lived stream, old and new records through old and new streams).",
          "main() and flag parsing are not exercised.",
          "3/C19"),
 }
